@@ -193,3 +193,22 @@ Example C07_chunk_files_example :
   sorter_run c mf_concat ins = Done [([], [6]); ([1], [2; 5]); ([2], [4]); ([3], [1; 3; 7])] /\
   (exists st, s_inserts c mf_concat (s_new c) ins = Done st /\ creates (ss_events st) = 5).
 Proof. cbv zeta. split; [vm_compute; reflexivity|]. split; [vm_compute; reflexivity|]. eexists. split; vm_compute; reflexivity. Qed.
+
+(* ================= end to end =================
+   the sorter that writes every chunk through the writer model, re-opens it and merges it back through cursors,
+   with a merge function that is a pure function of (key, values) obeying the flattening law and returning
+   values within the u32 length limit: a run that finishes returns exactly the specification's output (C07_spec:
+   strictly ascending distinct inserted keys, each with the merge of its values in insertion order), whatever
+   the sorter configuration and the configuration (codec, block size, index levels) of its chunk files *)
+Theorem C07_end_to_end : forall compress decompress wc,
+  (forall b z, compress (wc_codec wc) (wc_level wc) b = Done z -> decompress (wc_codec wc) z = Done b) ->
+  (forall b, exists z, compress (wc_codec wc) (wc_level wc) b = Done z) ->
+  wc_levels wc < 256 -> 1 <= wc_interval wc -> wc_codec wc <= 5 ->
+  forall (f : bytes -> list bytes -> bytes) (mf : mergefn),
+  (forall ord k vs, mf ord k vs = Done (f k vs)) ->
+  (forall k vss, vss <> [] -> Forall (fun vs => vs <> []) vss -> f k (map (f k) vss) = f k (concat vss)) ->
+  (forall k vs, len (f k vs) <= U32_MAX) ->
+  forall c ins out, len ins + 1 <= U32_MAX ->
+  file_sorter_run compress decompress wc c mf ins = Done out -> sorter_spec mf ins = Done out.
+Proof. exact file_sorter_spec. Qed.
+Print Assumptions C07_end_to_end.
